@@ -223,5 +223,7 @@ pub fn start_watchdog(case_file: &str, stall_secs: u64) {
 }
 
 pub fn silence_panics() {
-    std::panic::set_hook(Box::new(|_| {}));
+    if std::env::var_os("VERIF_SHOW_PANICS").is_none() {
+        std::panic::set_hook(Box::new(|_| {}));
+    }
 }
